@@ -212,7 +212,7 @@ package router
 //@   ensures [fresh] result != nil && fresh(result)
 //@   ensures [ids] result.Publication == pubID && result.Subscription == sub.id
 //@   ensures [args-remote] subscriber == nil || !method(subscriber.Peer, "IsLocal") ==> result.Arguments == msg.Arguments && result.ArgumentsKw == msg.ArgumentsKw
-//@   ensures [args-local] subscriber != nil && method(subscriber.Peer, "IsLocal") ==> len(result.Arguments) == len(msg.Arguments) && (forall i mathint :: 0 <= i && i < len(msg.Arguments) ==> result.Arguments[i] == msg.Arguments[i]) && (forall k string :: (k in result.ArgumentsKw) == (k in msg.ArgumentsKw) && result.ArgumentsKw[k] == msg.ArgumentsKw[k])
+//@   ensures [args-local] subscriber != nil && method(subscriber.Peer, "IsLocal") ==> len(result.Arguments) == len(msg.Arguments) && (forall i mathint :: 0 <= i && i < len(msg.Arguments) ==> result.Arguments[i] == msg.Arguments[i]) && (forall k string :: (k in result.ArgumentsKw) == (k in msg.ArgumentsKw) && (k in msg.ArgumentsKw ==> result.ArgumentsKw[k] == msg.ArgumentsKw[k]))
 //@   ensures [private-local] subscriber != nil && method(subscriber.Peer, "IsLocal") ==> (msg.ArgumentsKw != nil ==> fresh(result.ArgumentsKw)) && (msg.Arguments != nil ==> result.Arguments != msg.Arguments || len(msg.Arguments) == 0)
 //@   ensures [details-private] result.Details != nil && fresh(result.Details)
 //@   ensures [topic] sendTopic ==> "topic" in result.Details && result.Details["topic"] == box(msg.Topic)
@@ -301,10 +301,11 @@ package router
 //@   requires details != nil
 //@   modifies map(details)
 //@   ensures [others-kept] forall k string :: k != "ppt_scheme" && k != "ppt_serializer" && k != "ppt_cipher" && k != "ppt_keyid" ==> (k in details) == old(k in details) && details[k] == old(details[k])
+//@   ensures [ground-others] ("receive_progress" in details) == old("receive_progress" in details) && details["receive_progress"] == old(details["receive_progress"]) && ("progress" in details) == old("progress" in details) && details["progress"] == old(details["progress"]) && ("timeout" in details) == old("timeout" in details) && details["timeout"] == old(details["timeout"]) && ("procedure" in details) == old("procedure" in details) && details["procedure"] == old(details["procedure"]) && ("caller" in details) == old("caller" in details) && details["caller"] == old(details["caller"]) && ("topic" in details) == old("topic" in details) && details["topic"] == old(details["topic"]) && ("publisher" in details) == old("publisher" in details) && details["publisher"] == old(details["publisher"])
 
 //@ pred validTopic(b *broker, t wamp.URI) = b.strictURI ? inre(string(t), "strict-exact") : inre(string(t), "loose-exact")
-//@ pred wantsAck(msg *wamp.Publish) = is(msg.Options["acknowledge"], bool) && msg.Options["acknowledge"].(bool)
-//@ pred wantsDisclose(msg *wamp.Publish) = is(msg.Options["disclose_me"], bool) && msg.Options["disclose_me"].(bool)
+//@ pred wantsAck(msg *wamp.Publish) = "acknowledge" in msg.Options && is(msg.Options["acknowledge"], bool) && msg.Options["acknowledge"].(bool)
+//@ pred wantsDisclose(msg *wamp.Publish) = "disclose_me" in msg.Options && is(msg.Options["disclose_me"], bool) && msg.Options["disclose_me"].(bool)
 
 //@ func (b *broker) publish
 //@   dyncalls-pure
@@ -363,3 +364,513 @@ package router
 //@ func (b *broker) PreInitEventHistoryTopics
 //@   on broker
 //@   nosweep
+
+// ---------------------------------------------------------------------------
+// Dealer
+
+//@ owned dealer dealer
+//@ owned registration dealer
+//@ owned invocation dealer
+//@ slicenorm registration callees
+//@ immutable dealer procRegMap, pfxProcRegMap, wcProcRegMap, registrations, calls, invocations, invocationByCall, calleeRegIDSet, actionChan, stopped, idGen, prng, strictURI, allowDisclose, log, debug
+//@ immutable registration id, procedure, created, match, policy, disclose, forwardTimeout
+
+//@ pred dealerNN(d *dealer) = d != nil && d.procRegMap != nil && d.pfxProcRegMap != nil && d.wcProcRegMap != nil && d.registrations != nil && d.calls != nil && d.invocations != nil && d.invocationByCall != nil && d.calleeRegIDSet != nil && d.idGen != nil && d.prng != nil && !isnil(d.log) && d.procRegMap != d.pfxProcRegMap && d.procRegMap != d.wcProcRegMap && d.pfxProcRegMap != d.wcProcRegMap
+
+//@ pred pfxMatches(d *dealer, p wamp.URI, proc wamp.URI) = p in d.pfxProcRegMap && hasPrefix(string(proc), string(p))
+//@ pred wcMatches(d *dealer, w wamp.URI, proc wamp.URI) = w in d.wcProcRegMap && wildcardSpec(string(proc), string(w))
+
+//@ func (d *dealer) syncMatchProcedure
+//@   on dealer
+//@   props C03 C18
+//@   requires dealerNN(d) && dealerExact(d) && dealerPfx(d) && dealerWc(d)
+//@   pure
+//@   ensures [registered] result1 ==> result0 != nil && result0.id in d.registrations && d.registrations[result0.id] == result0
+//@   ensures [exact-first] procedure in d.procRegMap ==> result1 && result0 == d.procRegMap[procedure]
+//@   ensures [prefix-longest] !(procedure in d.procRegMap) && (exists p wamp.URI :: pfxMatches(d, p, procedure)) ==> result1 && (exists p wamp.URI :: pfxMatches(d, p, procedure) && result0 == d.pfxProcRegMap[p] && (forall q wamp.URI :: pfxMatches(d, q, procedure) ==> len(q) <= len(p)))
+//@   ensures [wildcard-last] !(procedure in d.procRegMap) && !(exists p wamp.URI :: pfxMatches(d, p, procedure)) && (exists w wamp.URI :: wcMatches(d, w, procedure)) ==> result1 && (exists w wamp.URI :: wcMatches(d, w, procedure) && result0 == d.wcProcRegMap[w] && (forall q wamp.URI :: wcMatches(d, q, procedure) ==> len(q) <= len(w)))
+//@   ensures [none] !(procedure in d.procRegMap) && !(exists p wamp.URI :: pfxMatches(d, p, procedure)) && !(exists w wamp.URI :: wcMatches(d, w, procedure)) ==> !result1
+//@   loop range d.pfxProcRegMap
+//@     invariant [pfx-best] ok ==> (exists p wamp.URI :: visited(p) && pfxMatches(d, p, procedure) && reg == d.pfxProcRegMap[p] && matchCount == len(p))
+//@     invariant [pfx-max] forall q wamp.URI :: visited(q) && pfxMatches(d, q, procedure) ==> ok && len(q) <= matchCount
+//@     invariant [pfx-none] !ok ==> matchCount == -1
+//@     invariant [visited-in] forall q wamp.URI :: visited(q) ==> q in d.pfxProcRegMap
+//@   loop range d.wcProcRegMap
+//@     invariant [no-prefix] !(exists p wamp.URI :: pfxMatches(d, p, procedure))
+//@     invariant [wc-best] ok ==> (exists w wamp.URI :: visited(w) && wcMatches(d, w, procedure) && reg == d.wcProcRegMap[w] && matchCount == len(w))
+//@     invariant [wc-max] forall q wamp.URI :: visited(q) && wcMatches(d, q, procedure) ==> ok && len(q) <= matchCount
+//@     invariant [wc-none] !ok ==> matchCount == -1
+//@     invariant [visited-in] forall q wamp.URI :: visited(q) ==> q in d.wcProcRegMap
+
+//@ pred regTable(d *dealer, match string) = match == wamp.MatchPrefix ? d.pfxProcRegMap : (match == wamp.MatchWildcard ? d.wcProcRegMap : d.procRegMap)
+
+//@ opaque pred calleeOf(r *registration, c *wamp.Session) = exists k mathint :: 0 <= k && k < len(r.callees) && r.callees[k] == c
+
+//@ pred dealerRegs(d *dealer) = forall i wamp.ID :: i in d.registrations ==> (allocated(d.registrations[i]) && d.registrations[i].id == i && len(d.registrations[i].callees) >= 1 && d.registrations[i].nextCallee >= 0 && d.registrations[i].procedure in regTable(d, d.registrations[i].match) && regTable(d, d.registrations[i].match)[d.registrations[i].procedure] == d.registrations[i])
+
+//@ pred dealerExact(d *dealer) = forall p wamp.URI :: p in d.procRegMap ==> (d.procRegMap[p] != nil && d.procRegMap[p].procedure == p && d.procRegMap[p].match != wamp.MatchPrefix && d.procRegMap[p].match != wamp.MatchWildcard && d.procRegMap[p].id in d.registrations && d.registrations[d.procRegMap[p].id] == d.procRegMap[p])
+//@ pred dealerPfx(d *dealer) = forall p wamp.URI :: p in d.pfxProcRegMap ==> (d.pfxProcRegMap[p] != nil && d.pfxProcRegMap[p].procedure == p && d.pfxProcRegMap[p].match == wamp.MatchPrefix && d.pfxProcRegMap[p].id in d.registrations && d.registrations[d.pfxProcRegMap[p].id] == d.pfxProcRegMap[p])
+//@ pred dealerWc(d *dealer) = forall p wamp.URI :: p in d.wcProcRegMap ==> (d.wcProcRegMap[p] != nil && d.wcProcRegMap[p].procedure == p && d.wcProcRegMap[p].match == wamp.MatchWildcard && d.wcProcRegMap[p].id in d.registrations && d.registrations[d.wcProcRegMap[p].id] == d.wcProcRegMap[p])
+
+//@ pred dealerCallees(d *dealer) = forall i wamp.ID, k mathint :: i in d.registrations && 0 <= k && k < len(d.registrations[i].callees) ==> allocated(d.registrations[i].callees[k]) && !isnil(d.registrations[i].callees[k].Peer)
+
+//@ pred dealerNoDup(d *dealer) = forall i wamp.ID, k1 mathint, k2 mathint :: i in d.registrations && 0 <= k1 && k1 < k2 && k2 < len(d.registrations[i].callees) ==> d.registrations[i].callees[k1] != d.registrations[i].callees[k2]
+
+//@ pred dealerPolicy(d *dealer) = forall i wamp.ID :: i in d.registrations && len(d.registrations[i].callees) > 1 ==> (d.registrations[i].policy == wamp.InvokeFirst || d.registrations[i].policy == wamp.InvokeLast || d.registrations[i].policy == wamp.InvokeRoundRobin || d.registrations[i].policy == wamp.InvokeRandom)
+
+//@ pred dealerOwn(d *dealer) = (forall i wamp.ID, j wamp.ID :: i in d.registrations && j in d.registrations && i != j ==> backing(d.registrations[i].callees) != backing(d.registrations[j].callees)) && (forall i wamp.ID :: i in d.registrations ==> backing(d.registrations[i].callees) > 0 && backing(d.registrations[i].callees) < allocLimit()) && (forall c1 *wamp.Session, c2 *wamp.Session :: c1 in d.calleeRegIDSet && c2 in d.calleeRegIDSet && c1 != c2 ==> d.calleeRegIDSet[c1] != d.calleeRegIDSet[c2])
+
+//@ pred dealerIndexFwd(d *dealer) = forall c *wamp.Session, i wamp.ID :: c in d.calleeRegIDSet && i in d.calleeRegIDSet[c] ==> i in d.registrations && calleeOf(d.registrations[i], c)
+//@ pred dealerIndexBwd(d *dealer) = forall i wamp.ID, k mathint :: i in d.registrations && 0 <= k && k < len(d.registrations[i].callees) ==> calleeOf(d.registrations[i], d.registrations[i].callees[k]) && d.registrations[i].callees[k] in d.calleeRegIDSet && i in d.calleeRegIDSet[d.registrations[i].callees[k]]
+//@ pred dealerIndexAlloc(d *dealer) = forall c *wamp.Session :: c in d.calleeRegIDSet ==> allocated(d.calleeRegIDSet[c])
+//@ pred dealerIndex(d *dealer) = dealerIndexFwd(d) && dealerIndexBwd(d) && dealerIndexAlloc(d)
+
+//@ pred dealerInv(d *dealer) = dealerNN(d) && dealerRegs(d) && dealerExact(d) && dealerPfx(d) && dealerWc(d) && dealerCallees(d) && dealerNoDup(d) && dealerPolicy(d) && dealerOwn(d)
+
+//@ pred isCallee(d *dealer, c *wamp.Session, i wamp.ID) = i in d.registrations && calleeOf(d.registrations[i], c)
+
+//@ func (d *dealer) trySend
+//@   props C02 C03 C07
+//@   requires d != nil && !isnil(d.log) && sess != nil && !isnil(sess.Peer) && !isnil(msg)
+//@   modifies ghost sendcount
+//@   ensures [one-attempt] sendcount(sendChan(sess)) == old(sendcount(sendChan(sess))) + 1
+//@   ensures [others] forall c mathint :: c != sendChan(sess) ==> sendcount(c) == old(sendcount(c))
+
+//@ func (d *dealer) syncDelCalleeReg
+//@   on dealer
+//@   props C03 C05
+//@   requires dealerInv(d) && callee != nil
+//@   modifies map(d.registrations), map(d.procRegMap), map(d.pfxProcRegMap), map(d.wcProcRegMap), d.registrations[regID].callees, elems(d.registrations[regID].callees)
+//@   ensures [inv-nn] dealerNN(d)
+//@   ensures [inv-regs] dealerRegs(d)
+//@   ensures [inv-exact] dealerExact(d)
+//@   ensures [inv-pfx] dealerPfx(d)
+//@   ensures [inv-wc] dealerWc(d)
+//@   ensures [inv-callees] dealerCallees(d)
+//@   ensures [inv-nodup] dealerNoDup(d)
+//@   ensures [inv-policy] dealerPolicy(d)
+//@   ensures [inv-own] dealerOwn(d)
+//@   ensures [error-if-not-callee] !old(isCallee(d, callee, regID)) ==> !isnil(result1)
+//@   ensures [ok-if-callee] old(isCallee(d, callee, regID)) ==> isnil(result1)
+//@   ensures [shape] old(isCallee(d, callee, regID)) && !result0 ==> (exists p mathint :: 0 <= p && p < old(len(d.registrations[regID].callees)) && old(d.registrations[regID].callees[p]) == callee && len(old(d.registrations[regID]).callees) == old(len(d.registrations[regID].callees)) - 1 && (forall k mathint :: 0 <= k && k < p ==> old(d.registrations[regID]).callees[k] == old(d.registrations[regID].callees[k])) && (forall k mathint :: p < k && k < old(len(d.registrations[regID].callees)) ==> old(d.registrations[regID]).callees[k - 1] == old(d.registrations[regID].callees[k])) && (forall k mathint :: p <= k && k + 1 < old(len(d.registrations[regID].callees)) ==> old(d.registrations[regID]).callees[k] == old(d.registrations[regID].callees[k + 1])))
+//@   ensures [not-callee-no-change] !old(isCallee(d, callee, regID)) ==> !result0 && (forall i wamp.ID, c *wamp.Session :: isCallee(d, c, i) <==> old(isCallee(d, c, i)))
+//@   ensures [removed] !isCallee(d, callee, regID)
+//@   ensures [deleted-iff-last] result0 <==> (old(isCallee(d, callee, regID)) && old(len(d.registrations[regID].callees)) == 1)
+//@   ensures [deleted-gone] result0 ==> !(regID in d.registrations)
+//@   ensures [kept] old(regID in d.registrations) && !result0 ==> regID in d.registrations && d.registrations[regID] == old(d.registrations[regID])
+//@   ensures [other-regs-same] forall i wamp.ID :: i != regID ==> ((i in d.registrations) == old(i in d.registrations)) && d.registrations[i] == old(d.registrations[i]) && (old(i in d.registrations) ==> len(d.registrations[i].callees) == old(len(d.registrations[i].callees)) && backing(d.registrations[i].callees) == old(backing(d.registrations[i].callees)) && (forall k mathint :: 0 <= k && k < len(d.registrations[i].callees) ==> d.registrations[i].callees[k] == old(d.registrations[i].callees[k])))
+//@   ensures [other-regs-untouched] forall i wamp.ID, c *wamp.Session :: i != regID ==> (isCallee(d, c, i) <==> old(isCallee(d, c, i)))
+//@   ensures [other-callees-kept] forall c *wamp.Session :: c != callee && old(isCallee(d, c, regID)) ==> isCallee(d, c, regID)
+//@   ensures [no-new-callees] forall c *wamp.Session :: isCallee(d, c, regID) ==> old(isCallee(d, c, regID))
+//@   loop range reg.callees
+//@     invariant [not-yet] forall j mathint :: 0 <= j && j <= rangeindex ==> reg.callees[j] != callee
+//@     invariant [bound] rangeindex < len(reg.callees)
+//@     invariant [not-found] !found
+
+//@ pred regIdsFresh(d *dealer) = d.idGen.next < wamp.MaxID && (forall i wamp.ID :: i in d.registrations ==> i <= d.idGen.next)
+
+//@ pred sharedPolicy(p string) = p == wamp.InvokeFirst || p == wamp.InvokeLast || p == wamp.InvokeRoundRobin || p == wamp.InvokeRandom
+
+//@ pred shareable(r *registration, policy string, callee *wamp.Session) = sharedPolicy(r.policy) && r.policy == policy && !calleeOf(r, callee)
+
+//@ func (d *dealer) syncRegister
+//@   on dealer
+//@   props C03 C05 C18
+//@   requires dealerInv(d) && dealerIndex(d) && regIdsFresh(d)
+//@   requires callee != nil && !isnil(callee.Peer) && msg != nil
+//@   modifies d.idGen.next, map(d.registrations), map(d.procRegMap), map(d.pfxProcRegMap), map(d.wcProcRegMap), map(d.calleeRegIDSet), all map[wamp.ID]struct{}, all registration.callees, all []*wamp.Session, ghost sendcount
+//@   ensures [new] !old(msg.Procedure in regTable(d, match)) ==> msg.Procedure in regTable(d, match) && fresh(regTable(d, match)[msg.Procedure]) && regTable(d, match)[msg.Procedure].id == old(d.idGen.next) + 1 && regTable(d, match)[msg.Procedure].policy == invokePolicy && regTable(d, match)[msg.Procedure].match == match && regTable(d, match)[msg.Procedure].disclose == disclose && regTable(d, match)[msg.Procedure].forwardTimeout == forwardTimeout && len(regTable(d, match)[msg.Procedure].callees) == 1 && regTable(d, match)[msg.Procedure].callees[0] == callee
+//@   ensures [join] old(msg.Procedure in regTable(d, match)) && old(shareable(regTable(d, match)[msg.Procedure], invokePolicy, callee)) ==> regTable(d, match)[msg.Procedure] == old(regTable(d, match)[msg.Procedure]) && isCallee(d, callee, regTable(d, match)[msg.Procedure].id) && len(regTable(d, match)[msg.Procedure].callees) == old(len(regTable(d, match)[msg.Procedure].callees)) + 1
+//@   ensures [join-shape] old(msg.Procedure in regTable(d, match)) && old(shareable(regTable(d, match)[msg.Procedure], invokePolicy, callee)) ==> (forall k mathint :: 0 <= k && k < old(len(regTable(d, match)[msg.Procedure].callees)) ==> regTable(d, match)[msg.Procedure].callees[k] == old(regTable(d, match)[msg.Procedure].callees[k])) && regTable(d, match)[msg.Procedure].callees[old(len(regTable(d, match)[msg.Procedure].callees))] == callee
+//@   ensures [other-regs-same] forall i wamp.ID :: old(i in d.registrations) && (!old(msg.Procedure in regTable(d, match)) || i != old(regTable(d, match)[msg.Procedure].id)) ==> i in d.registrations && d.registrations[i] == old(d.registrations[i]) && len(d.registrations[i].callees) == old(len(d.registrations[i].callees)) && backing(d.registrations[i].callees) == old(backing(d.registrations[i].callees)) && (forall k mathint :: 0 <= k && k < len(d.registrations[i].callees) ==> d.registrations[i].callees[k] == old(d.registrations[i].callees[k]))
+//@   ensures [inv-nn] dealerNN(d)
+//@   ensures [inv-regs] dealerRegs(d)
+//@   ensures [inv-exact] dealerExact(d)
+//@   ensures [inv-pfx] dealerPfx(d)
+//@   ensures [inv-wc] dealerWc(d)
+//@   ensures [inv-callees] dealerCallees(d)
+//@   ensures [inv-nodup] dealerNoDup(d)
+//@   ensures [inv-policy] dealerPolicy(d)
+//@   ensures [inv-own] dealerOwn(d)
+//@   ensures [inv-index-fwd] dealerIndexFwd(d)
+//@   ensures [inv-index-bwd] dealerIndexBwd(d)
+//@   ensures [inv-index-alloc] dealerIndexAlloc(d)
+//@   ensures [inv-ids] forall i wamp.ID :: i in d.registrations ==> i <= d.idGen.next
+//@   ensures [refused-unchanged] old(msg.Procedure in regTable(d, match)) && !old(shareable(regTable(d, match)[msg.Procedure], invokePolicy, callee)) ==> (forall i wamp.ID, c *wamp.Session :: isCallee(d, c, i) <==> old(isCallee(d, c, i)))
+//@   ensures [no-new-members] forall i wamp.ID, k mathint :: i in d.registrations && 0 <= k && k < len(d.registrations[i].callees) ==> d.registrations[i].callees[k] == callee || old(isCallee(d, d.registrations[i].callees[k], i))
+//@   callsite trySend : [to-requester] arg1 == callee
+//@   callsite trySend : [refused-error] old(msg.Procedure in regTable(d, match)) && !old(shareable(regTable(d, match)[msg.Procedure], invokePolicy, callee)) ==> is(arg2, *wamp.Error) && arg2.(*wamp.Error).Error == wamp.ErrProcedureAlreadyExists && arg2.(*wamp.Error).Request == msg.Request && arg2.(*wamp.Error).Type == wamp.REGISTER
+//@   callsite trySend : [registered] !(old(msg.Procedure in regTable(d, match)) && !old(shareable(regTable(d, match)[msg.Procedure], invokePolicy, callee))) ==> is(arg2, *wamp.Registered) && arg2.(*wamp.Registered).Request == msg.Request && msg.Procedure in regTable(d, match) && arg2.(*wamp.Registered).Registration == regTable(d, match)[msg.Procedure].id
+
+//@ func (d *dealer) syncUnregister
+//@   on dealer
+//@   props C03 C05 C18
+//@   requires dealerInv(d) && dealerIndex(d)
+//@   requires callee != nil && !isnil(callee.Peer) && msg != nil
+//@   modifies map(d.registrations), map(d.procRegMap), map(d.pfxProcRegMap), map(d.wcProcRegMap), map(d.calleeRegIDSet), all map[wamp.ID]struct{}, all registration.callees, all []*wamp.Session, ghost sendcount
+//@   ensures [inv-nn] dealerNN(d)
+//@   ensures [inv-regs] dealerRegs(d)
+//@   ensures [inv-exact] dealerExact(d)
+//@   ensures [inv-pfx] dealerPfx(d)
+//@   ensures [inv-wc] dealerWc(d)
+//@   ensures [inv-callees] dealerCallees(d)
+//@   ensures [inv-nodup] dealerNoDup(d)
+//@   ensures [inv-policy] dealerPolicy(d)
+//@   ensures [inv-own] dealerOwn(d)
+//@   ensures [sets-others] forall c *wamp.Session, i wamp.ID :: c != callee ==> ((c in d.calleeRegIDSet && i in d.calleeRegIDSet[c]) <==> old(c in d.calleeRegIDSet && i in d.calleeRegIDSet[c]))
+//@   ensures [sets-own] forall i wamp.ID :: i != msg.Registration ==> ((callee in d.calleeRegIDSet && i in d.calleeRegIDSet[callee]) <==> old(callee in d.calleeRegIDSet && i in d.calleeRegIDSet[callee]))
+//@   ensures [sets-removed] !(callee in d.calleeRegIDSet && msg.Registration in d.calleeRegIDSet[callee])
+//@   ensures [inv-index-fwd] dealerIndexFwd(d)
+//@   ensures [inv-index-bwd] dealerIndexBwd(d)
+//@   ensures [inv-index-alloc] dealerIndexAlloc(d)
+//@   ensures [removed] !isCallee(d, callee, msg.Registration)
+//@   ensures [other-regs-untouched] forall i wamp.ID, c *wamp.Session :: i != msg.Registration ==> (isCallee(d, c, i) <==> old(isCallee(d, c, i)))
+//@   ensures [other-callees-kept] forall c *wamp.Session :: c != callee && old(isCallee(d, c, msg.Registration)) ==> isCallee(d, c, msg.Registration)
+//@   ensures [no-new-callees] forall c *wamp.Session :: isCallee(d, c, msg.Registration) ==> old(isCallee(d, c, msg.Registration))
+//@   ensures [no-meta-if-refused] !old(isCallee(d, callee, msg.Registration)) ==> len(result) == 0
+//@   callsite trySend : [to-requester] arg1 == callee
+//@   callsite trySend : [non-callee-error] !old(isCallee(d, callee, msg.Registration)) ==> is(arg2, *wamp.Error) && arg2.(*wamp.Error).Error == wamp.ErrNoSuchRegistration && arg2.(*wamp.Error).Request == msg.Request && arg2.(*wamp.Error).Type == wamp.UNREGISTER
+//@   callsite trySend : [unregistered] old(isCallee(d, callee, msg.Registration)) ==> is(arg2, *wamp.Unregistered) && arg2.(*wamp.Unregistered).Request == msg.Request
+
+// ---------------------------------------------------------------------------
+// Dealer: call bookkeeping
+
+//@ immutable invocation callID, callee, options
+//@ immutable requestID session, request
+//@ immutable wamp.Call *
+//@ immutable wamp.Cancel *
+//@ immutable wamp.Yield *
+//@ immutable wamp.Invocation *
+//@ immutable wamp.Result *
+//@ immutable wamp.Interrupt *
+//@ immutable wamp.Register *
+//@ immutable wamp.Unregister *
+//@ immutable wamp.Registered *
+//@ immutable wamp.Unregistered *
+
+//@ pred callsA(d *dealer) = forall c requestID :: c in d.invocationByCall ==> c in d.calls && d.invocationByCall[c] in d.invocations && d.invocations[d.invocationByCall[c]].callID == c
+//@ pred callsB(d *dealer) = forall i requestID :: i in d.invocations ==> allocated(d.invocations[i]) && allocated(d.invocations[i].callee) && !isnil(d.invocations[i].callee.Peer) && i.session == d.invocations[i].callee.ID && d.invocations[i].callID in d.invocationByCall && d.invocationByCall[d.invocations[i].callID] == i
+//@ pred callsC(d *dealer) = forall c requestID :: c in d.calls ==> allocated(d.calls[c]) && !isnil(d.calls[c].Peer) && c.session == d.calls[c].ID && c in d.invocationByCall
+//@ pred callsInv(d *dealer) = callsA(d) && callsB(d) && callsC(d)
+//@ pred callsFresh(d *dealer) = forall i requestID :: i in d.invocations ==> i.request <= d.invocations[i].callee.IDGen.IDGen.next
+//@ pred noIdWrap() = forall s *wamp.Session :: s.IDGen.IDGen.next < wamp.MaxID
+//@ spec func sessionOfID(id wamp.ID) *wamp.Session
+//@ pred uniqueSessionIDs() = forall s *wamp.Session :: allocated(s) ==> sessionOfID(s.ID) == s
+
+//@ pred callDelta(d *dealer, rid requestID, iid requestID, caller *wamp.Session, callee *wamp.Session) = (forall c requestID :: c != rid ==> (c in d.calls) == old(c in d.calls) && d.calls[c] == old(d.calls[c]) && (c in d.invocationByCall) == old(c in d.invocationByCall) && d.invocationByCall[c] == old(d.invocationByCall[c])) && (forall i requestID :: i != iid ==> (i in d.invocations) == old(i in d.invocations) && d.invocations[i] == old(d.invocations[i])) && rid in d.invocationByCall && d.invocationByCall[rid] == iid && iid in d.invocations && d.invocations[iid].callID == rid && d.invocations[iid].callee == callee && allocated(callee) && !isnil(callee.Peer) && iid.session == callee.ID && allocated(d.invocations[iid]) && rid in d.calls && d.calls[rid] == caller && allocated(caller) && !isnil(caller.Peer) && rid.session == caller.ID && (old(iid in d.invocations) ==> old(rid in d.invocationByCall)) && (old(rid in d.invocationByCall) ==> old(d.invocationByCall[rid]) == iid)
+
+//@ lemma callRecorded(d *dealer, rid requestID, iid requestID, caller *wamp.Session, callee *wamp.Session)
+//@   props C02 C03 C05
+//@   hyp [old-inv] old(callsA(d)) && old(callsB(d)) && old(callsC(d))
+//@   hyp [delta] callDelta(d, rid, iid, caller, callee)
+//@   concl [a] callsA(d)
+//@   concl [b] callsB(d)
+//@   concl [c] callsC(d)
+
+//@ pred cancellable(d *dealer, caller *wamp.Session, rid requestID) = rid in d.calls && d.calls[rid] == caller && !d.invocations[d.invocationByCall[rid]].canceled
+
+//@ pred callGone(d *dealer, rid requestID, iid requestID) = !(rid in d.calls) && !(rid in d.invocationByCall) && !(iid in d.invocations)
+
+//@ func (d *dealer) syncCancel
+//@   dyncalls-pure
+//@   on dealer
+//@   props C02 C05 C13
+//@   requires dealerNN(d) && callsInv(d) && caller != nil && !isnil(caller.Peer) && msg != nil
+//@   modifies map(d.calls), map(d.invocations), map(d.invocationByCall), all invocation.canceled, ghost sendcount
+//@   callcount trySend arg1
+//@   ensures [inv-a] callsA(d)
+//@   ensures [inv-b] callsB(d)
+//@   ensures [inv-c] callsC(d)
+//@   ensures [invocations-only-shrink] forall i requestID :: i in d.invocations ==> old(i in d.invocations) && d.invocations[i] == old(d.invocations[i])
+//@   ensures [no-effect] !old(cancellable(d, caller, requestID(caller.ID, msg.Request))) ==> (forall c requestID :: (c in d.calls) == old(c in d.calls) && (c in d.invocationByCall) == old(c in d.invocationByCall) && (c in d.invocations) == old(c in d.invocations)) && (forall i *invocation :: i.canceled == old(i.canceled)) && (forall s *wamp.Session :: calls(trySend, s) == old(calls(trySend, s))) && (forall c mathint :: sendcount(c) == old(sendcount(c)))
+//@   ensures [not-kill-removes] old(cancellable(d, caller, requestID(caller.ID, msg.Request))) && mode != wamp.CancelModeKill ==> callGone(d, requestID(caller.ID, msg.Request), old(d.invocationByCall[requestID(caller.ID, msg.Request)]))
+//@   ensures [kill-keeps-or-removes] old(cancellable(d, caller, requestID(caller.ID, msg.Request))) && mode == wamp.CancelModeKill ==> callGone(d, requestID(caller.ID, msg.Request), old(d.invocationByCall[requestID(caller.ID, msg.Request)])) || (requestID(caller.ID, msg.Request) in d.calls && old(d.invocations[d.invocationByCall[requestID(caller.ID, msg.Request)]]).canceled && (forall s *wamp.Session :: calls(trySend, s) == old(calls(trySend, s))))
+//@   ensures [kill-degrades-to-skip] old(cancellable(d, caller, requestID(caller.ID, msg.Request))) && !old(hasFeature(d.invocations[d.invocationByCall[requestID(caller.ID, msg.Request)]].callee, "callee", "call_canceling")) ==> callGone(d, requestID(caller.ID, msg.Request), old(d.invocationByCall[requestID(caller.ID, msg.Request)]))
+//@   ensures [one-error-iff-removed] old(cancellable(d, caller, requestID(caller.ID, msg.Request))) ==> calls(trySend, caller) == old(calls(trySend, caller)) + (requestID(caller.ID, msg.Request) in d.calls ? 0 : 1)
+//@   ensures [nobody-else] forall s *wamp.Session :: s != caller ==> calls(trySend, s) == old(calls(trySend, s))
+//@   ensures [others-kept] forall c requestID :: c != requestID(caller.ID, msg.Request) ==> (c in d.calls) == old(c in d.calls) && d.calls[c] == old(d.calls[c]) && (c in d.invocationByCall) == old(c in d.invocationByCall) && d.invocationByCall[c] == old(d.invocationByCall[c])
+//@   callsite trySend : [error-to-caller] arg1 == caller && is(arg2, *wamp.Error) && arg2.(*wamp.Error).Type == wamp.CALL && arg2.(*wamp.Error).Request == msg.Request && arg2.(*wamp.Error).Error == reason && (len(errArgs) != 0 ==> arg2.(*wamp.Error).Arguments == errArgs)
+//@   sendsite interrupt : [interrupt-when-allowed] mode != wamp.CancelModeSkip && old(cancellable(d, caller, requestID(caller.ID, msg.Request))) && ch == sendChan(old(d.invocations[d.invocationByCall[requestID(caller.ID, msg.Request)]].callee)) && old(hasFeature(d.invocations[d.invocationByCall[requestID(caller.ID, msg.Request)]].callee, "callee", "call_canceling"))
+//@   sendsite interrupt : [interrupt-content] is(m, *wamp.Interrupt) && m.(*wamp.Interrupt).Request == old(d.invocationByCall[requestID(caller.ID, msg.Request)]).request && "mode" in m.(*wamp.Interrupt).Options && m.(*wamp.Interrupt).Options["mode"] == box(mode) && m.(*wamp.Interrupt).Options["reason"] == box(reason)
+
+//@ func (d *dealer) syncError
+//@   dyncalls-pure
+//@   on dealer
+//@   props C02 C03 C05
+//@   requires dealerNN(d) && callsInv(d) && callee != nil && msg != nil
+//@   modifies map(d.calls), map(d.invocations), map(d.invocationByCall), ghost sendcount
+//@   callcount trySend arg1
+//@   ensures [inv-a] callsA(d)
+//@   ensures [inv-b] callsB(d)
+//@   ensures [inv-c] callsC(d)
+//@   ensures [invocations-only-shrink] forall i requestID :: i in d.invocations ==> old(i in d.invocations) && d.invocations[i] == old(d.invocations[i])
+//@   ensures [unknown-invocation-no-effect] !old(requestID(callee.ID, msg.Request) in d.invocations) ==> (forall c requestID :: (c in d.calls) == old(c in d.calls) && (c in d.invocationByCall) == old(c in d.invocationByCall) && (c in d.invocations) == old(c in d.invocations)) && (forall s *wamp.Session :: calls(trySend, s) == old(calls(trySend, s))) && (forall c mathint :: sendcount(c) == old(sendcount(c)))
+//@   ensures [finishes-call] old(requestID(callee.ID, msg.Request) in d.invocations) ==> callGone(d, old(d.invocations[requestID(callee.ID, msg.Request)].callID), requestID(callee.ID, msg.Request))
+//@   ensures [one-error-to-caller] old(requestID(callee.ID, msg.Request) in d.invocations) ==> calls(trySend, old(d.calls[d.invocations[requestID(callee.ID, msg.Request)].callID])) == old(calls(trySend, d.calls[d.invocations[requestID(callee.ID, msg.Request)].callID])) + 1
+//@   ensures [nobody-else] forall s *wamp.Session :: old(requestID(callee.ID, msg.Request) in d.invocations) && s != old(d.calls[d.invocations[requestID(callee.ID, msg.Request)].callID]) ==> calls(trySend, s) == old(calls(trySend, s))
+//@   ensures [others-kept] forall c requestID :: c != old(d.invocations[requestID(callee.ID, msg.Request)].callID) ==> (c in d.calls) == old(c in d.calls) && d.calls[c] == old(d.calls[c]) && (c in d.invocationByCall) == old(c in d.invocationByCall) && d.invocationByCall[c] == old(d.invocationByCall[c])
+//@   callsite trySend : [forwarded-to-caller] arg1 == old(d.calls[d.invocations[requestID(callee.ID, msg.Request)].callID]) && is(arg2, *wamp.Error) && arg2.(*wamp.Error).Type == wamp.CALL && arg2.(*wamp.Error).Request == old(d.invocations[requestID(callee.ID, msg.Request)].callID).request && arg2.(*wamp.Error).Error == msg.Error && arg2.(*wamp.Error).Details == msg.Details && arg2.(*wamp.Error).Arguments == msg.Arguments && arg2.(*wamp.Error).ArgumentsKw == msg.ArgumentsKw
+
+//@ pred ownsInvocation(d *dealer, callee *wamp.Session, iid requestID) = iid in d.invocations && d.invocations[iid].callee == callee
+
+//@ func (d *dealer) syncYield
+//@   dyncalls-pure
+//@   on dealer
+//@   props C02 C03 C13
+//@   requires dealerNN(d) && callsInv(d) && callee != nil && !isnil(callee.Peer) && msg != nil
+//@   modifies map(d.calls), map(d.invocations), map(d.invocationByCall), all invocation.canceled, ghost sendcount, ghost closed
+//@   ensures [inv-a] callsA(d)
+//@   ensures [inv-b] callsB(d)
+//@   ensures [inv-c] callsC(d)
+//@   ensures [not-owner-no-effect] !old(ownsInvocation(d, callee, requestID(callee.ID, msg.Request))) ==> !result && (forall c requestID :: (c in d.calls) == old(c in d.calls) && (c in d.invocationByCall) == old(c in d.invocationByCall) && (c in d.invocations) == old(c in d.invocations))
+//@   ensures [retry-keeps-everything] result ==> canRetry && old(ownsInvocation(d, callee, requestID(callee.ID, msg.Request))) && (forall c requestID :: (c in d.calls) == old(c in d.calls) && (c in d.invocationByCall) == old(c in d.invocationByCall) && (c in d.invocations) == old(c in d.invocations))
+//@   ensures [final-finishes-call] old(ownsInvocation(d, callee, requestID(callee.ID, msg.Request))) && !progress && !result && !old(d.invocations[requestID(callee.ID, msg.Request)].inProgress) ==> callGone(d, old(d.invocations[requestID(callee.ID, msg.Request)].callID), requestID(callee.ID, msg.Request))
+//@   ensures [others-kept] forall c requestID :: !old(ownsInvocation(d, callee, requestID(callee.ID, msg.Request))) || c != old(d.invocations[requestID(callee.ID, msg.Request)].callID) ==> (c in d.calls) == old(c in d.calls) && d.calls[c] == old(d.calls[c]) && (c in d.invocationByCall) == old(c in d.invocationByCall) && d.invocationByCall[c] == old(d.invocationByCall[c])
+//@   sendsite send : [result-to-own-caller] is(m, *wamp.Result) ==> old(ownsInvocation(d, callee, requestID(callee.ID, msg.Request))) && ch == sendChan(old(d.calls[d.invocations[requestID(callee.ID, msg.Request)].callID])) && m.(*wamp.Result).Request == old(d.invocations[requestID(callee.ID, msg.Request)].callID).request && m.(*wamp.Result).Arguments == msg.Arguments && m.(*wamp.Result).ArgumentsKw == msg.ArgumentsKw && (("progress" in m.(*wamp.Result).Details) <==> progress)
+//@   sendsite send : [interrupt-only-for-unknown-progress] is(m, *wamp.Interrupt) ==> !old(requestID(callee.ID, msg.Request) in d.invocations) && progress && ch == sendChan(callee) && m.(*wamp.Interrupt).Request == msg.Request
+//@   sendsite send : [nothing-else] is(m, *wamp.Result) || is(m, *wamp.Interrupt)
+//@   callsite trySend : [only-to-the-yielding-callee] arg1 == callee && (is(arg2, *wamp.Error) || is(arg2, *wamp.Abort))
+//@   callsite syncError : [finishes-own-invocation] arg1 == callee && arg2.Request == msg.Request && old(ownsInvocation(d, callee, requestID(callee.ID, msg.Request)))
+//@   callsite syncCancel : [cancels-own-call] old(ownsInvocation(d, callee, requestID(callee.ID, msg.Request))) && arg1 == old(d.calls[d.invocations[requestID(callee.ID, msg.Request)].callID]) && arg2.Request == old(d.invocations[requestID(callee.ID, msg.Request)].callID).request && !canRetry
+
+//@ func discloseCaller
+//@   props C12
+//@   requires caller != nil && details != nil
+//@   modifies map(details)
+//@   ensures [caller] "caller" in details && details["caller"] == box(caller.ID)
+//@   ensures [others-kept] forall k string :: k != "caller" && k != "caller_authid" && k != "caller_authrole" ==> (k in details) == old(k in details) && details[k] == old(details[k])
+//@   ensures [ground-others] ("receive_progress" in details) == old("receive_progress" in details) && details["receive_progress"] == old(details["receive_progress"]) && ("progress" in details) == old("progress" in details) && details["progress"] == old(details["progress"]) && ("timeout" in details) == old("timeout" in details) && details["timeout"] == old(details["timeout"]) && ("procedure" in details) == old("procedure" in details) && details["procedure"] == old(details["procedure"]) && ("ppt_scheme" in details) == old("ppt_scheme" in details) && details["ppt_scheme"] == old(details["ppt_scheme"])
+//@   loop range []string{"authid", "authrole"}
+//@     invariant [caller] "caller" in details && details["caller"] == box(caller.ID)
+//@     invariant [others-kept] forall k string :: k != "caller" && k != "caller_authid" && k != "caller_authrole" ==> (k in details) == old(k in details) && details[k] == old(details[k])
+
+//@ pred optTrue(o wamp.Dict, k string) = k in o && is(o[k], bool) && o[k].(bool)
+
+//@ pred isNewCall(d *dealer, caller *wamp.Session, msg *wamp.Call) = !(requestID(caller.ID, msg.Request) in d.invocationByCall)
+
+//@ func (d *dealer) syncCall
+//@   perreturn
+//@   dyncalls-pure
+//@   on dealer
+//@   props C02 C03 C05 C12 C13
+//@   requires dealerInv(d) && callsInv(d) && callsFresh(d) && caller != nil && !isnil(caller.Peer) && msg != nil
+//@   assume [no-invocation-id-wrap] noIdWrap()
+//@   assume [unique-session-ids] uniqueSessionIDs()
+//@   modifies map(d.calls), map(d.invocations), map(d.invocationByCall), all registration.nextCallee, all invocation.inProgress, all invocation.timerCancel, all wamp.IDGen.next, ghost sendcount, ghost closed
+//@   ensures [others-kept] forall c requestID :: requestID(caller.ID, msg.Request) in d.calls && c != requestID(caller.ID, msg.Request) ==> (c in d.calls) == old(c in d.calls) && d.calls[c] == old(d.calls[c]) && (c in d.invocationByCall) == old(c in d.invocationByCall) && d.invocationByCall[c] == old(d.invocationByCall[c])
+//@   ensures [inv-a] callsA(d)
+//@   ensures [inv-b] callsB(d)
+//@   ensures [inv-c] callsC(d)
+//@   ensures [inv-regs] dealerRegs(d)
+//@   ensures [inv-fresh] callsFresh(d)
+//@   ensures [pending-call-has-owner] requestID(caller.ID, msg.Request) in d.calls ==> d.calls[requestID(caller.ID, msg.Request)] == caller || old(requestID(caller.ID, msg.Request) in d.calls)
+//@   ensures [never-half-recorded] (requestID(caller.ID, msg.Request) in d.calls) == (requestID(caller.ID, msg.Request) in d.invocationByCall)
+//@   callsite trySend : [errors-to-caller] arg1 == caller && (is(arg2, *wamp.Abort) || (is(arg2, *wamp.Error) && arg2.(*wamp.Error).Type == wamp.CALL && arg2.(*wamp.Error).Request == msg.Request))
+//@   callsite trySend : [refusal-touches-nothing] forall c requestID :: (c in d.calls) == old(c in d.calls) && d.calls[c] == old(d.calls[c]) && (c in d.invocationByCall) == old(c in d.invocationByCall) && d.invocationByCall[c] == old(d.invocationByCall[c]) && (c in d.invocations) == old(c in d.invocations)
+//@   callsite trySend : [refused-leaves-no-new-entry] old(isNewCall(d, caller, msg)) ==> !(requestID(caller.ID, msg.Request) in d.calls) && !(requestID(caller.ID, msg.Request) in d.invocationByCall)
+//@   sendsite invocation : [only-invocations] is(m, *wamp.Invocation)
+//@   sendsite invocation : [to-registered-callee] ch == sendChan(callee) && reg != nil && reg.id in d.registrations && d.registrations[reg.id] == reg && m.(*wamp.Invocation).Registration == reg.id
+//@   sendsite invocation : [best-match-exact] msg.Procedure in d.procRegMap ==> reg == d.procRegMap[msg.Procedure]
+//@   sendsite invocation : [best-match-prefix] !(msg.Procedure in d.procRegMap) && (exists p wamp.URI :: pfxMatches(d, p, msg.Procedure)) ==> (exists p wamp.URI :: pfxMatches(d, p, msg.Procedure) && reg == d.pfxProcRegMap[p] && (forall q wamp.URI :: pfxMatches(d, q, msg.Procedure) ==> len(q) <= len(p)))
+//@   sendsite invocation : [best-match-wildcard] !(msg.Procedure in d.procRegMap) && !(exists p wamp.URI :: pfxMatches(d, p, msg.Procedure)) ==> (exists w wamp.URI :: wcMatches(d, w, msg.Procedure) && reg == d.wcProcRegMap[w])
+//@   sendsite invocation : [payload-intact] m.(*wamp.Invocation).Arguments == msg.Arguments && m.(*wamp.Invocation).ArgumentsKw == msg.ArgumentsKw && m.(*wamp.Invocation).Request == invocationID
+//@   sendsite invocation : [new-call-member] old(isNewCall(d, caller, msg)) ==> calleeOf(reg, callee)
+//@   sendsite invocation : [policy-single] old(isNewCall(d, caller, msg)) && len(reg.callees) == 1 ==> callee == reg.callees[0]
+//@   sendsite invocation : [policy-first] old(isNewCall(d, caller, msg)) && len(reg.callees) > 1 && reg.policy == wamp.InvokeFirst ==> callee == reg.callees[0]
+//@   sendsite invocation : [policy-last] old(isNewCall(d, caller, msg)) && len(reg.callees) > 1 && reg.policy == wamp.InvokeLast ==> callee == reg.callees[len(reg.callees) - 1]
+//@   sendsite invocation : [policy-roundrobin] old(isNewCall(d, caller, msg)) && len(reg.callees) > 1 && reg.policy == wamp.InvokeRoundRobin ==> callee == reg.callees[old(reg.nextCallee) >= len(reg.callees) ? 0 : old(reg.nextCallee)] && reg.nextCallee == (old(reg.nextCallee) >= len(reg.callees) ? 0 : old(reg.nextCallee)) + 1
+//@   sendsite invocation : [fresh-invocation-id] old(isNewCall(d, caller, msg)) ==> (old(callee.IDGen.IDGen.next) < wamp.MaxID ==> invocationID == old(callee.IDGen.IDGen.next) + 1) && (old(callee.IDGen.IDGen.next) == wamp.MaxID ==> invocationID == 1)
+//@   sendsite invocation : [recorded] old(isNewCall(d, caller, msg)) ==> requestID(caller.ID, msg.Request) in d.calls && d.calls[requestID(caller.ID, msg.Request)] == caller && d.invocationByCall[requestID(caller.ID, msg.Request)] == requestID(callee.ID, invocationID) && requestID(callee.ID, invocationID) in d.invocations && d.invocations[requestID(callee.ID, invocationID)].callee == callee
+//@   sendsite invocation : [continuation-same-callee] !old(isNewCall(d, caller, msg)) ==> callee == old(d.invocations[d.invocationByCall[requestID(caller.ID, msg.Request)]].callee) && invocationID == old(d.invocationByCall[requestID(caller.ID, msg.Request)]).request
+//@   sendsite invocation : [others-kept-so-far] forall c requestID :: c != requestID(caller.ID, msg.Request) ==> (c in d.calls) == old(c in d.calls) && d.calls[c] == old(d.calls[c]) && (c in d.invocationByCall) == old(c in d.invocationByCall) && d.invocationByCall[c] == old(d.invocationByCall[c])
+//@   sendsite invocation : [invocations-so-far] forall i requestID :: i != requestID(callee.ID, invocationID) ==> (i in d.invocations) == old(i in d.invocations) && d.invocations[i] == old(d.invocations[i])
+//@   sendsite invocation : [d1] requestID(caller.ID, msg.Request) in d.invocationByCall && d.invocationByCall[requestID(caller.ID, msg.Request)] == requestID(callee.ID, invocationID)
+//@   sendsite invocation : [d2] requestID(callee.ID, invocationID) in d.invocations && d.invocations[requestID(callee.ID, invocationID)].callee == callee && allocated(d.invocations[requestID(callee.ID, invocationID)])
+//@   sendsite invocation : [d3] d.invocations[requestID(callee.ID, invocationID)].callID == requestID(caller.ID, msg.Request)
+//@   sendsite invocation : [d4] allocated(callee) && !isnil(callee.Peer) && allocated(caller)
+//@   sendsite invocation : [d5] requestID(caller.ID, msg.Request) in d.calls && d.calls[requestID(caller.ID, msg.Request)] == caller
+//@   sendsite invocation : [d6] old(requestID(callee.ID, invocationID) in d.invocations) ==> old(requestID(caller.ID, msg.Request) in d.invocationByCall)
+//@   sendsite invocation : [d7] old(requestID(caller.ID, msg.Request) in d.invocationByCall) ==> old(d.invocationByCall[requestID(caller.ID, msg.Request)]) == requestID(callee.ID, invocationID)
+//@   sendsite invocation : [own-entry] callDelta(d, requestID(caller.ID, msg.Request), requestID(callee.ID, invocationID), caller, callee)
+//@   sendsite invocation : use callRecorded(d, requestID(caller.ID, msg.Request), requestID(callee.ID, invocationID), caller, callee)
+//@   sendsite invocation : [bookkeeping-consistent-a] callsA(d)
+//@   sendsite invocation : [bookkeeping-consistent-b] callsB(d)
+//@   sendsite invocation : [bookkeeping-consistent-c] callsC(d)
+//@   sendsite invocation : [bookkeeping-fresh] callsFresh(d)
+//@   callsite Next : [details-before-id-receive-progress-only-if] "receive_progress" in details ==> optTrue(msg.Options, "receive_progress") && hasFeature(callee, "callee", "progressive_call_results") && hasFeature(callee, "callee", "call_canceling")
+//@   callsite Next : [details-before-id-receive-progress-if] optTrue(msg.Options, "receive_progress") && hasFeature(callee, "callee", "progressive_call_results") && hasFeature(callee, "callee", "call_canceling") ==> "receive_progress" in details && details["receive_progress"] == box(true)
+//@   callsite syncError : [others-kept-so-far] forall c requestID :: c != requestID(caller.ID, msg.Request) ==> (c in d.calls) == old(c in d.calls) && d.calls[c] == old(d.calls[c]) && (c in d.invocationByCall) == old(c in d.invocationByCall) && d.invocationByCall[c] == old(d.invocationByCall[c])
+//@   callsite syncError : [own-invocation] requestID(arg1.ID, arg2.Request) in d.invocations && d.invocations[requestID(arg1.ID, arg2.Request)].callID == requestID(caller.ID, msg.Request)
+//@   callsite Next : [details-before-id-caller] "caller" in details ==> reg.disclose || (optTrue(msg.Options, "disclose_me") && d.allowDisclose && hasFeature(callee, "callee", "caller_identification"))
+//@   callsite Next : [details-before-id-no-timeout] !("timeout" in details)
+//@   sendsite invocation : [receive-progress] "receive_progress" in m.(*wamp.Invocation).Details ==> old(isNewCall(d, caller, msg)) && optTrue(msg.Options, "receive_progress") && hasFeature(callee, "callee", "progressive_call_results") && hasFeature(callee, "callee", "call_canceling")
+//@   sendsite invocation : [receive-progress-granted] old(isNewCall(d, caller, msg)) && optTrue(msg.Options, "receive_progress") && hasFeature(callee, "callee", "progressive_call_results") && hasFeature(callee, "callee", "call_canceling") ==> "receive_progress" in m.(*wamp.Invocation).Details && m.(*wamp.Invocation).Details["receive_progress"] == box(true)
+//@   sendsite invocation : [caller-disclosed-only-if-allowed] "caller" in m.(*wamp.Invocation).Details ==> reg.disclose || (optTrue(msg.Options, "disclose_me") && d.allowDisclose && hasFeature(callee, "callee", "caller_identification"))
+//@   sendsite invocation : [timeout-forwarded-only-if-handled] "timeout" in m.(*wamp.Invocation).Details ==> old(isNewCall(d, caller, msg)) && hasFeature(callee, "callee", "call_timeout") && reg.forwardTimeout
+
+//@ pred dealerIndexExcept(d *dealer, x *wamp.Session) = (forall c *wamp.Session, i wamp.ID :: c != x && c in d.calleeRegIDSet && i in d.calleeRegIDSet[c] ==> i in d.registrations && calleeOf(d.registrations[i], c)) && (forall i wamp.ID, k mathint :: i in d.registrations && 0 <= k && k < len(d.registrations[i].callees) && d.registrations[i].callees[k] != x ==> calleeOf(d.registrations[i], d.registrations[i].callees[k]) && d.registrations[i].callees[k] in d.calleeRegIDSet && i in d.calleeRegIDSet[d.registrations[i].callees[k]]) && dealerIndexAlloc(d)
+
+//@ func (d *dealer) syncRemoveSession
+//@   dyncalls-pure
+//@   perreturn
+//@   on dealer
+//@   props C02 C03 C05 C18
+//@   requires dealerInv(d) && dealerIndex(d) && callsInv(d) && sess != nil
+//@   modifies map(d.registrations), map(d.procRegMap), map(d.pfxProcRegMap), map(d.wcProcRegMap), map(d.calleeRegIDSet), all registration.callees, all []*wamp.Session, all []*wamp.Publish, map(d.calls), map(d.invocations), map(d.invocationByCall), all invocation.canceled, ghost sendcount
+//@   ensures [inv-nn] dealerNN(d)
+//@   ensures [inv-regs] dealerRegs(d)
+//@   ensures [inv-exact] dealerExact(d)
+//@   ensures [inv-pfx] dealerPfx(d)
+//@   ensures [inv-wc] dealerWc(d)
+//@   ensures [inv-callees] dealerCallees(d)
+//@   ensures [inv-nodup] dealerNoDup(d)
+//@   ensures [inv-policy] dealerPolicy(d)
+//@   ensures [inv-own] dealerOwn(d)
+//@   ensures [inv-index-fwd] dealerIndexFwd(d)
+//@   ensures [inv-index-bwd] dealerIndexBwd(d)
+//@   ensures [inv-index-alloc] dealerIndexAlloc(d)
+//@   ensures [inv-a] callsA(d)
+//@   ensures [inv-b] callsB(d)
+//@   ensures [inv-c] callsC(d)
+//@   ensures [no-registrations-left] forall i wamp.ID :: !isCallee(d, sess, i)
+//@   ensures [no-index-left] !(sess in d.calleeRegIDSet)
+//@   ensures [no-invocations-served] forall i requestID :: i in d.invocations ==> d.invocations[i].callee != sess
+//@   ensures [no-own-calls-left] forall c requestID :: c in d.calls ==> d.calls[c] != sess
+//@   callsite syncCancel : [answers-the-served-caller] arg3 == wamp.CancelModeSkip && arg4 == wamp.ErrCanceled && requestID(arg1.ID, arg2.Request) in d.calls && d.calls[requestID(arg1.ID, arg2.Request)] == arg1
+//@   loop range d.calleeRegIDSet[sess]
+//@     invariant [nn] dealerNN(d)
+//@     invariant [regs] dealerRegs(d)
+//@     invariant [exact] dealerExact(d)
+//@     invariant [pfx] dealerPfx(d)
+//@     invariant [wc] dealerWc(d)
+//@     invariant [callees] dealerCallees(d)
+//@     invariant [nodup] dealerNoDup(d)
+//@     invariant [policy] dealerPolicy(d)
+//@     invariant [own] dealerOwn(d)
+//@     invariant [index-others] dealerIndexExcept(d, sess)
+//@     invariant [index-sess-fwd] forall i wamp.ID :: sess in d.calleeRegIDSet && i in d.calleeRegIDSet[sess] && !visited(i) ==> isCallee(d, sess, i)
+//@     invariant [index-sess-bwd] forall i wamp.ID :: isCallee(d, sess, i) ==> sess in d.calleeRegIDSet && i in d.calleeRegIDSet[sess] && !visited(i)
+//@   loop range d.invocations
+//@     invariant [a] callsA(d)
+//@     invariant [b] callsB(d)
+//@     invariant [c] callsC(d)
+//@     invariant [served-done] forall i requestID :: visited(i) && i in d.invocations ==> d.invocations[i].callee != sess
+//@   loop range d.calls
+//@     invariant [a] callsA(d)
+//@     invariant [b] callsB(d)
+//@     invariant [c] callsC(d)
+//@     invariant [served-none] forall i requestID :: i in d.invocations ==> d.invocations[i].callee != sess
+//@     invariant [own-done] forall c requestID :: visited(c) && c in d.calls ==> d.calls[c] != sess
+
+// ---------------------------------------------------------------------------
+// Dealer: entry points running on the session's goroutine
+
+//@ pred validProc(d *dealer, p wamp.URI, match string) = d.strictURI ? (match == wamp.MatchWildcard ? inre(string(p), "strict-wildcard") : (match == wamp.MatchPrefix ? inre(string(p), "strict-prefix") : inre(string(p), "strict-exact"))) : (match == wamp.MatchWildcard ? inre(string(p), "loose-wildcard") : (match == wamp.MatchPrefix ? inre(string(p), "loose-prefix") : inre(string(p), "loose-exact")))
+
+//@ pred trustedRole(c *wamp.Session) = "authrole" in c.Details && ((is(c.Details["authrole"], string) && c.Details["authrole"].(string) == "trusted") || (is(c.Details["authrole"], wamp.URI) && c.Details["authrole"].(wamp.URI) == "trusted") || is(c.Details["authrole"], []byte))
+
+//@ func (d *dealer) register
+//@   props C03 C12
+//@   requires d != nil && !isnil(d.log) && callee != nil && !isnil(callee.Peer) && msg != nil
+//@   sendsite action : [valid-uri-only] ch == d.actionChan ==> validProc(d, msg.Procedure, match)
+//@   sendsite action : [no-restricted-procedure] ch == d.actionChan ==> !(hasPrefix(string(msg.Procedure), "wamp.") && callee.ID != metaID)
+//@   sendsite action : [disclose-caller-only-if-allowed] ch == d.actionChan ==> !disclose || d.allowDisclose || old(trustedRole(callee))
+//@   callsite Send : [meta-peer-set] assume !isnil(d.metaPeer)
+//@   callsite trySend : [errors-to-requester] arg1 == callee && is(arg2, *wamp.Error) && arg2.(*wamp.Error).Type == wamp.REGISTER && arg2.(*wamp.Error).Request == msg.Request
+//@   callsite trySend : [invalid-uri] !validProc(d, msg.Procedure, match) || (hasPrefix(string(msg.Procedure), "wamp.") && callee.ID != metaID) ==> arg2.(*wamp.Error).Error == wamp.ErrInvalidURI
+
+//@ closure (d *dealer) register 1
+//@   on dealer
+//@   captures done != nil
+//@   props C03
+//@   captures callee != nil && !isnil(callee.Peer) && msg != nil
+//@   requires dealerInv(d) && dealerIndex(d)
+//@   assume [registration-ids-not-wrapped] regIdsFresh(d)
+//@   callsite syncRegister : [pass-through] arg0 == d && arg1 == callee && arg2 == msg && arg3 == match && arg4 == invoke && arg5 == disclose && arg6 == forwardTimeout && arg7 == wampURI
+
+//@ func (d *dealer) unregister
+//@   props C03
+//@   requires d != nil && callee != nil && !isnil(callee.Peer) && msg != nil
+//@   callsite Send : [meta-peer-set] assume !isnil(d.metaPeer)
+
+//@ closure (d *dealer) unregister 1
+//@   on dealer
+//@   captures done != nil
+//@   props C03
+//@   captures callee != nil && !isnil(callee.Peer) && msg != nil
+//@   requires dealerInv(d) && dealerIndex(d)
+//@   callsite syncUnregister : [pass-through] arg0 == d && arg1 == callee && arg2 == msg
+
+//@ func (d *dealer) call
+//@   props C02 C03
+//@   requires d != nil && caller != nil && !isnil(caller.Peer) && msg != nil
+
+//@ closure (d *dealer) call 1
+//@   on dealer
+//@   props C02 C03
+//@   captures caller != nil && !isnil(caller.Peer) && msg != nil
+//@   requires dealerInv(d) && callsInv(d) && callsFresh(d)
+//@   callsite syncCall : [pass-through] arg0 == d && arg1 == caller && arg2 == msg
+
+//@ func (d *dealer) cancel
+//@   props C13
+//@   requires d != nil && !isnil(d.log) && caller != nil && !isnil(caller.Peer) && msg != nil
+//@   sendsite action : [known-mode-only] ch == d.actionChan ==> mode == wamp.CancelModeKill || mode == wamp.CancelModeKillNoWait || mode == wamp.CancelModeSkip
+//@   callsite trySend : [invalid-mode-refused] arg1 == caller && is(arg2, *wamp.Error) && arg2.(*wamp.Error).Type == wamp.CANCEL && arg2.(*wamp.Error).Request == msg.Request && arg2.(*wamp.Error).Error == wamp.ErrInvalidArgument && mode != wamp.CancelModeKill && mode != wamp.CancelModeKillNoWait && mode != wamp.CancelModeSkip && mode != ""
+
+//@ closure (d *dealer) cancel 1
+//@   on dealer
+//@   props C13
+//@   captures caller != nil && !isnil(caller.Peer) && msg != nil
+//@   requires dealerNN(d) && callsInv(d)
+//@   callsite syncCancel : [pass-through] arg0 == d && arg1 == caller && arg2 == msg && arg3 == mode && arg4 == wamp.ErrCanceled && len(arg5) == 0
+
+//@ func (d *dealer) yield
+//@   props C02
+//@   requires d != nil && !isnil(d.log) && callee != nil && !isnil(callee.Peer) && msg != nil
+
+//@ closure (d *dealer) yield 1
+//@   on dealer
+//@   props C02 C03
+//@   captures callee != nil && !isnil(callee.Peer) && msg != nil
+//@   requires dealerNN(d) && callsInv(d)
+//@   callsite syncYield : [pass-through] arg0 == d && arg1 == callee && arg2 == msg && arg3 == progress && arg4
+
+//@ closure (d *dealer) yield 2
+//@   on dealer
+//@   props C02 C03
+//@   captures callee != nil && !isnil(callee.Peer) && msg != nil
+//@   requires dealerNN(d) && callsInv(d)
+//@   callsite syncYield : [pass-through] arg0 == d && arg1 == callee && arg2 == msg && arg3 == progress && arg4 == retry
+
+//@ func (d *dealer) error
+//@   props C02
+//@   requires d != nil && msg != nil && callee != nil
+
+//@ closure (d *dealer) error 1
+//@   on dealer
+//@   props C02 C03
+//@   captures callee != nil && msg != nil
+//@   requires dealerNN(d) && callsInv(d)
+//@   callsite syncError : [pass-through] arg0 == d && arg1 == callee && arg2 == msg
+
+//@ func (d *dealer) removeSession
+//@   props C05
+//@   requires d != nil
+//@   callsite Send : [meta-peer-set] assume !isnil(d.metaPeer)
+
+//@ closure (d *dealer) removeSession 1
+//@   on dealer
+//@   captures done != nil
+//@   props C02 C05
+//@   captures sess != nil
+//@   requires dealerInv(d) && dealerIndex(d) && callsInv(d)
+//@   callsite syncRemoveSession : [pass-through] arg0 == d && arg1 == sess
+
+//@ closure (d *dealer) syncCall 1.1
+//@   dyncalls-pure
+//@   on dealer
+//@   props C13 C02
+//@   captures caller != nil && !isnil(caller.Peer) && msg != nil
+//@   requires dealerNN(d) && callsInv(d)
+//@   callsite syncCancel : [timeout-is-killnowait-with-timeout-error] arg0 == d && arg1 == caller && arg2.Request == msg.Request && arg3 == wamp.CancelModeKillNoWait && arg4 == wamp.ErrTimeout && len(arg5) == 1
